@@ -5,6 +5,7 @@ NonceF == <<1, 1, 2, 2, 1>>
 HashF == <<1, 2, 3, 4, 5>>
 EffF == <<1, 2, 3, 4, 5>>
 CompassF == <<1, 1, 1, 1, 2>>
+HeightF == <<1, 1, 2, 2, 1>>
 ApplF == <<TRUE, TRUE, TRUE, FALSE, TRUE>>
 Pow3 == <<34, 33, 33>>
 Pow3b == <<50, 16, 34>>
@@ -21,5 +22,5 @@ NextSmall == \/ \E v \in Vals, c \in Claims : Vote(v, c)
              \/ \E n \in 0..1 : Override(n)
              \/ (compass = 1 /\ Activate(2))
              \/ \E v \in Vals, p \in Powers : p # power[v] /\ SetPowerOf(v, p)
-View == <<last, cursor, atts, power, compass, epoch, effects, applied>>
+View == <<last, cursor, atts, power, compass, epoch, lastEth, effects, applied>>
 =============================================================================
